@@ -545,7 +545,7 @@ def check_product(chk, fi: FuncInfo) -> None:
 # rules whose violations rest on positive evidence read off the current code (not on a mismatch with the pinned form)
 ROBUST = {
     "components-walk", "greedy-perms", "greedy-perms-skip", "greedy-outer", "greedy-available", "greedy-earlier", "greedy-earlier-exit", "greedy-mark",
-    "greedy-choice", "greedy-record", "product", "product-skip", "product-default",
+    "greedy-choice", "greedy-record", "product", "product-skip", "product-default", "list-handed-out",
 }
 
 
@@ -586,6 +586,11 @@ def run(chk) -> None:
     c01.check_regions(chk)
     c01.check_stems(chk)
     c01.check_fill(chk)
+    # the list is a cached answer: a consumer that edits it in place changes what the object answers from then on
+    from checks import c12
+
+    if c12.foreign_mutations(chk, "list-handed-out", ("all_dot_brackets",)) == 0:
+        chk.ok("list-handed-out", "package", "no consumer of BpSeq.all_dot_brackets changes the cached list in place")
     if not c01.decided(chk, "enumeration"):
         for rule in ("components-walk", "greedy-perms", "greedy-earlier", "greedy-mark", "greedy-choice", "product"):
             chk.floor(rule, 1)
